@@ -90,7 +90,9 @@ def ordinals():
 
 
 def mkdate(o, y, m, d):
-    return P().LocalDate(y, m, d, info(o)[0])
+    import routes
+    b = P().LocalDate(y, m, d, info(o)[0])
+    return routes.routed_date(info(o)[0], b._days_since_epoch, salt=y + m)
 
 
 def mktime(ns):
